@@ -17,7 +17,10 @@ TASK_TIMEOUT = 900
 NPROC = 16
 EXHAUSTIVE = False
 RULE = ("a scenario is one (subcommand, input) pair - phase (plain / --ped --use-ped-samples / --tag HP with list outputs), genotype "
-        "(plain / --ped), polyphase (ploidy 3-4, --threads 1..3), haplotag (--output-threads 1..3, barcoded reads), haplotagphase, "
+        "(plain / --ped), polyphase (ploidy 3-4, --threads 1..3), haplotag (--output-threads 1..3, barcoded reads; haplotag_dupnames: "
+        "all six samples tagged at once on an alignment file in which one read name occurs in the read groups of two different "
+        "samples on a chromosome, one of the two reads assignable and the other with equal support for both haplotypes, run under "
+        "seeds that realise both relative orders of every pair of the chosen names in the set of shared samples), haplotagphase, "
         "unphase, stats, compare, split, find_snv_candidates - on a materialised world with 3-4 samples whose names are chosen so that "
         "every iteration order of the sample-name set is realised by some PYTHONHASHSEED (TLC enumerates the permutations, the harness "
         "finds a seed for each), run as `python -m whatshap` subprocesses under 8-14 environments (those seeds, random seeds, thread "
@@ -27,11 +30,14 @@ ASSUMPTIONS = [
     "2^32 hash seeds cannot be enumerated: what is enumerated is every iteration order of the small unordered collections of sample names, each realised by a seed, plus random seeds",
     "OS scheduling of polyphase workers is not controlled; the pool design is model-checked (PolyPool.tla, all interleavings) and --threads 1..3 results are compared",
     "only the recorded command line (##commandline, @PG CL) is masked; BAM is compared record by record after decompression",
+    "read names shared between samples: only pairs (assignable read, unassignable read) are generated; two ASSIGNABLE reads of different samples with one name are excluded (known finding: haplotag keys its assignments by read name only, the later sample of the set wins)",
 ]
 CMDS = ["phase", "phase_ped", "phase_hp_lists", "genotype", "genotype_ped", "polyphase", "haplotag", "haplotagphase",
         "unphase", "stats", "compare", "split", "find_snv_candidates", "polyphase_pre", "polyphase_pre2", "polyphase_pre3",
         # option variants (the result must depend on files and options only, whatever the options are)
-        "split_largest", "compare_multi", "stats_gtf", "phase_distrust", "haplotag_regions", "find_snv_multi", "phase_lists_chr2", "stats_chroms_gz", "genotype_ped_cov", "compare_nosample", "phase_two_bams"]
+        "split_largest", "compare_multi", "stats_gtf", "phase_distrust", "haplotag_regions", "find_snv_multi", "phase_lists_chr2", "stats_chroms_gz", "genotype_ped_cov", "compare_nosample", "phase_two_bams",
+        # read names that COLLIDE between the samples of one alignment file (a QNAME identifies a fragment only within its sample)
+        "haplotag_dupnames"]
 
 
 def design_mc(ctx):
@@ -51,9 +57,12 @@ def design_mc(ctx):
     return out
 
 
-def _orders_by_seed(names, seeds):
-    """iteration order of set(names) under each PYTHONHASHSEED (one tiny subprocess per seed)"""
+def _orders_by_seed(names, seeds, inter=False):
+    """iteration order of set(names) under each PYTHONHASHSEED (one tiny subprocess per seed); inter: of the intersection of
+    two sets of these names (how haplotag derives the samples common to BAM and VCF)"""
     code = "import sys,json;print(json.dumps(list(set(json.loads(sys.argv[1])))))"
+    if inter:
+        code = "import sys,json;n=json.loads(sys.argv[1]);print(json.dumps(list({x for x in n}.intersection(set(n)))))"
     out = {}
     for s in seeds:
         p = subprocess.run([sys.executable, "-c", code, json.dumps(names)], env={"PYTHONHASHSEED": str(s)},
@@ -88,6 +97,17 @@ def scenarios(ctx):
                 envs += [{"hashseed": seeds[i % len(seeds)], "threads": t, "rep": 0} for i, t in enumerate([2, 3, 2, 3])]
             if cmd == "haplotag":
                 envs += [{"hashseed": seeds[i % len(seeds)], "threads": t, "rep": 0} for i, t in enumerate([2, 3])]
+            if cmd == "haplotag_dupnames":
+                # every pair of the chosen names must be worked on in BOTH relative orders: the set that is iterated is the
+                # intersection of the six BAM and VCF sample names, so the orders are taken from that very expression
+                o6 = _orders_by_seed(list(names) + ["t_dad", "t_mum", "t_kid"], range(0, 24), inter=True)
+                picked = set()
+                for a_, b_ in itertools.combinations(names, 2):
+                    for a_first in (True, False):
+                        hit = [s_ for s_, o in sorted(o6.items()) if (o.index(a_) < o.index(b_)) == a_first]
+                        picked.update(hit[:1])
+                envs += [{"hashseed": s_, "threads": 1, "rep": 0} for s_ in sorted(picked) if s_ not in seeds]
+                envs += [{"hashseed": seeds[i % len(seeds)], "threads": t, "rep": 0} for i, t in enumerate([2, 3])]
             if cmd == "polyphase_pre3":
                 # two samples, only one of them pre-phased: both iteration orders of the two-name set must be realised
                 o2 = _orders_by_seed(names[:2], range(0, 40))
@@ -101,11 +121,12 @@ def scenarios(ctx):
 
 
 # ----------------------------------------------------------------------------------------------
-def _world(sc):
+def _world(sc, **kw):
     rng = random.Random(sc["wseed"])
     names = sc["names"]
     ped = [[names[0], names[1], names[2]], ["t_dad", "t_mum", "t_kid"]]
-    w = PW.rand_world(rng, nsamples=6, nchroms=2, max_sites=6, depth=(1, 3), het_prob=0.8, kinds=("snv", "snv", "ins", "del"))
+    w = PW.rand_world(rng, nsamples=6, nchroms=2, depth=(1, 3), het_prob=0.8,
+                      **dict({"max_sites": 6, "kinds": ("snv", "snv", "ins", "del")}, **kw))
     # rename samples s1..s6: the first trio gets the chosen names (all iteration orders realised), a second family follows
     ren = {f"s{i+1}": n for i, n in enumerate(list(names) + ["t_dad", "t_mum", "t_kid"])}
     w["samples"] = [ren[s] for s in w["samples"]]
@@ -127,6 +148,71 @@ def _world(sc):
             w["reads"].append(dict(r, alleles=[rng.randint(0, 1) for _ in range(r["first"], r["last"] + 1)], gap=None,
                                    copies=rng.randint(1, 2)))
     return w
+
+
+def _dupname_bam(wd, d, paths, names, gz):
+    """dup.bam: the alignment file of the world plus pairs of reads of two DIFFERENT samples on one chromosome that carry the
+    SAME read name - one read that haplotag can assign (it shows one haplotype of its own sample at a phased SNV) and one that
+    it cannot (it shows haplotype 1 at one phased SNV and haplotype 2 at the next one of the same phase set of ITS sample:
+    equal support).  Returns the number of such pairs.  The case in which BOTH reads of a name are assignable is not generated
+    (known finding: the tags of such a name follow the iteration order of the sample set even in the unchanged code)."""
+    import logging
+    import pysam
+    from whatshap.cli.haplotag import run_haplotag
+    _, _, recs = PW.project_vcf(os.path.join(d, "phased.vcf"), wd["samples"], paths["names"])
+    ph = {}     # (sample, chromosome) -> [(site, kind, allele on haplotype 1, allele on haplotype 2, phase set)] of the phased het calls
+    for r in recs:
+        ci = r["chrom"]
+        if ci < 0:
+            continue
+        vs = paths["seqs"][ci][1]
+        si = next((i for i, v in enumerate(vs) if v.pos == r["pos"] and v.ref == r["ref"] and v.alt == r["alt"]), None)
+        if si is None:
+            continue
+        for s in names:
+            als, phased, ps, _hp = r["calls"][s]
+            if phased and len(als) == 2 and set(als) == {0, 1}:
+                ph.setdefault((s, ci), []).append((si, wd["chroms"][ci]["sites"][si]["kind"], als[0], als[1], ps))
+    extra, pairs = [], []
+    n0 = sum(r.get("copies", 1) for r in wd["reads"])
+    for ci in range(len(wd["chroms"])):
+        for x, y in itertools.permutations(names, 2):
+            px = [t for t in ph.get((x, ci), []) if t[1] == "snv"]
+            py = sorted(ph.get((y, ci), []))
+            ties = [(a, b) for a, b in zip(py, py[1:]) if a[1] == "snv" and b[1] == "snv" and a[4] == b[4]]
+            if not px or not ties:
+                continue
+            k = len(pairs)
+            t = px[k % len(px)]
+            h = k % 2
+            a, b = ties[k % len(ties)]
+            mid = [wd["truth"][y][ci][m][0] for m in range(a[0] + 1, b[0])]
+            extra.append({"sample": x, "chrom": ci, "hap": 0, "first": t[0], "last": t[0], "alleles": [t[2 + h]], "gap": None, "copies": 1})
+            extra.append({"sample": y, "chrom": ci, "hap": 0, "first": a[0], "last": b[0], "alleles": [a[2]] + mid + [b[3]], "gap": None, "copies": 1})
+            pairs.append((f"rd{n0 + len(extra) - 1:05d}", f"rd{n0 + len(extra):05d}"))
+    d2 = os.path.join(d, "dupw")
+    os.makedirs(d2, exist_ok=True)
+    p2 = PW.materialise(dict(wd, reads=list(wd["reads"]) + extra), d2)
+    # which of the constructed reads are assignable / not assignable is read off one (not judged) run on the file in which
+    # all names are still distinct; only pairs (assignable, not assignable) get a common name
+    logging.disable(logging.ERROR)
+    run_haplotag(variant_file=gz, alignment_file=p2["bam"], output=os.path.join(d2, "probe.bam"), reference=paths["ref"],
+                 haplotag_list=os.path.join(d2, "probe.tsv"))
+    got = {}
+    with open(os.path.join(d2, "probe.tsv")) as fh:
+        for line in fh:
+            f = line.rstrip("\n").split("\t")
+            if not line.startswith("#") and len(f) >= 2:
+                got.setdefault(f[0], set()).add(f[1])
+    ren = {tie: asg for asg, tie in pairs if got.get(asg) and got[asg] <= {"H1", "H2"} and got.get(tie) == {"none"}}
+    with pysam.AlignmentFile(p2["bam"]) as inp, pysam.AlignmentFile(os.path.join(d, "dup.bam"), "wb", header=inp.header) as out:
+        for a in inp:
+            if a.query_name in ren:
+                a.query_name = ren[a.query_name]
+            out.write(a)
+    pysam.index(os.path.join(d, "dup.bam"))
+    shutil.rmtree(d2, ignore_errors=True)
+    return len(ren)
 
 
 def _digest_file(path):
@@ -161,6 +247,7 @@ def drive(sc):
     try:
         cmd = sc["cmd"]
         outs = []
+        ndup = 0
         if cmd.startswith("polyphase"):
             from . import c15
             pre = cmd != "polyphase"
@@ -178,6 +265,11 @@ def drive(sc):
             outs = ["out.vcf"]
         else:
             wd = _world(sc)
+            if cmd == "haplotag_dupnames":
+                # more (mostly SNV) sites, and the phased VCF is written directly: blocks of 2-4 sites carrying the haplotypes
+                # of the world in either orientation, some blocks left unphased (materialise: phase_vcf)
+                wd = _world(sc, max_sites=10, kinds=("snv", "snv", "snv", "ins", "del"))
+                wd["phase_vcf"] = 1
             if cmd == "phase_two_bams":
                 wd["two_bams"] = True          # the reads spread over two alignment files (source ids 0 and 1 in command-line order)
             paths = PW.materialise(wd, d)
@@ -185,9 +277,12 @@ def drive(sc):
             # inputs derived once (not judged): a phased VCF, its compressed copy, tagged BAM, haplotag list
             wd["opts"] = {}
             if cmd in ("unphase", "stats", "compare", "haplotag", "haplotagphase", "split", "split_largest", "compare_multi",
-                       "stats_gtf", "haplotag_regions", "stats_chroms_gz", "compare_nosample"):
-                exc, _, _ = PW.run_phase(wd, d, paths, out_name="phased.vcf")
-                assert exc == "", exc
+                       "stats_gtf", "haplotag_regions", "stats_chroms_gz", "compare_nosample", "haplotag_dupnames"):
+                if cmd == "haplotag_dupnames":
+                    shutil.copy(paths["pvcf"], os.path.join(d, "phased.vcf"))
+                else:
+                    exc, _, _ = PW.run_phase(wd, d, paths, out_name="phased.vcf")
+                    assert exc == "", exc
                 shutil.copy(os.path.join(d, "phased.vcf"), os.path.join(d, "phased_copy.vcf"))
                 gz = pysam.tabix_index(os.path.join(d, "phased_copy.vcf"), preset="vcf", force=True)
             if cmd in ("haplotagphase", "split", "split_largest"):
@@ -197,6 +292,8 @@ def drive(sc):
                 run_haplotag(variant_file=gz, alignment_file=paths["bam"], output=os.path.join(d, "tagged.bam"),
                              reference=paths["ref"], haplotag_list=os.path.join(d, "list.tsv"))
                 pysam.index(os.path.join(d, "tagged.bam"))
+            if cmd == "haplotag_dupnames":
+                ndup = _dupname_bam(wd, d, paths, names, gz)
             if cmd == "split_largest":
                 # a list in which several phase sets of a chromosome TIE for the largest number of tagged reads
                 per = {}
@@ -256,6 +353,10 @@ def drive(sc):
                                   paths["vcf"], paths["bam"]], ["out.vcf"]),
                 "haplotag": (["haplotag", "--reference", paths["ref"], "-o", "{out}/out.bam", "--output-haplotag-list", "{out}/list.tsv",
                               "--output-threads", "{threads}", os.path.join(d, "phased_copy.vcf.gz"), paths["bam"]], ["out.bam", "list.tsv"]),
+                # no --sample: all samples common to VCF and BAM are worked on, in the iteration order of a set of names
+                "haplotag_dupnames": (["haplotag", "--reference", paths["ref"], "-o", "{out}/out.bam", "--output-haplotag-list", "{out}/list.tsv",
+                                       "--output-threads", "{threads}", os.path.join(d, "phased_copy.vcf.gz"), os.path.join(d, "dup.bam")],
+                                      ["out.bam", "list.tsv"]),
                 "haplotagphase": (["haplotagphase", "--reference", paths["ref"], "-o", "{out}/out.vcf",
                                    os.path.join(d, "unphased.vcf"), os.path.join(d, "tagged.bam")], ["out.vcf"]),
                 "unphase": (["unphase", os.path.join(d, "phased.vcf")], ["stdout"]),
@@ -339,7 +440,7 @@ def drive(sc):
             did = digests.setdefault(dg, len(digests) + 1)
             evs.append({"ev": "Run", "cmd": CMDS.index(cmd) + 1, "input": sc["input"], "exc": exc,
                         "hashseed": env["hashseed"] if env["hashseed"] != "random" else -1, "threads": env["threads"],
-                        "rep": env["rep"], "digest": did, "outs": len([x for x in parts if x != "missing"])})
+                        "rep": env["rep"], "digest": did, "outs": len([x for x in parts if x != "missing"]), "dups": ndup})
             if k > 0 and not env.get("inplace"):
                 shutil.rmtree(od, ignore_errors=True)
         return evs
@@ -348,6 +449,8 @@ def drive(sc):
 
 
 def nontrivial(sc, events):
+    if sc["cmd"] == "haplotag_dupnames" and not any(e.get("dups", 0) > 0 for e in events):
+        return False        # no read name shared by an assignable read of one sample and an unassignable read of another
     return sum(1 for e in events if e.get("ev") == "Run" and e["exc"] == "" and e["outs"] > 0) >= 4
 
 
@@ -369,7 +472,8 @@ MANIFEST = {
             "any environment; PolyPool.tla model-checks that every completion order of the polyphase worker pool yields the sequential "
             "aggregate (and that dropping the re-sort breaks it). Every subcommand is executed as a subprocess on materialised inputs "
             "under environments chosen so that all iteration orders of the sample-name set are realised by a PYTHONHASHSEED, plus random "
-            "seeds, --threads/--output-threads 1..3 and repetitions; TLC validates the recorded history of digests against Determinism.",
+            "seeds, --threads/--output-threads 1..3 and repetitions (haplotag also on alignment files whose read names collide between "
+            "samples); TLC validates the recorded history of digests against Determinism.",
     "note": "trusted: TLC, the digest (command line masked, BAM compared record-wise); hash seeds are covered as iteration orders of "
             "sample-name sets plus random seeds, worker scheduling by thread counts plus the model-checked pool design",
     "technique": "TLA+ history spec + TLC model checking of the pool design + TLC trace validation of recorded run histories",
